@@ -35,7 +35,7 @@ def gen_cases(tier, seed):
                           "group": "jax-%d" % (rep % 8), "cost": 3})
     mols = ["h2", "h4", "lih", "h2far", "h6chain"] if q else ["h2", "h4", "lih", "h4ring", "h2-631g", "h4-631g", "oh", "h2far", "h6chain", "lihfar"]
     for m in mols:
-        for thr in ([1e-4, 1e-5, 1e-7] if q else [1e-3, 1e-4, 1e-5, 1e-7, 1e-9]):
+        for thr in ([3e-3, 1e-3, 1e-4, 1e-5, 1e-6, 1e-7] if q else [1e-2, 3e-3, 1e-3, 3e-4, 1e-4, 1e-5, 1e-6, 1e-7, 1e-8, 1e-9]):
             cases.append({"type": "chunked", "mol": m, "thr": thr, "s": int(rng.integers(1 << 30)), "group": "mol-" + m, "cost": 3})
     return cases
 
@@ -216,7 +216,15 @@ def run_chunked(case):
     err = float(np.max(np.abs(L.T @ L - eri)))
     tol = case["thr"] + 1e-9 * float(np.max(np.abs(eri)))
     e = judge("chunked/reconstruction", err, tol, "C17/chunked", mol=case["mol"], nao=nao, nvec=int(L.shape[0]), thr=case["thr"])
-    return {"events": [e], "nontrivial": True, "sample": {"mol": case["mol"], "nao": nao, "vectors": int(L.shape[0]), "max_error": err},
+    events = [e]
+    # the smallest work buffer that can hold the decomposition (cmax * nao rows, one of them spare): same vectors, same accuracy
+    cmin = -(-(int(L.shape[0]) + 1) // nao)
+    if cmin < 10:
+        L2 = pyscf_interface.chunked_cholesky(mol, max_error=case["thr"], cmax=cmin)
+        err2 = float(np.max(np.abs(L2.T @ L2 - eri)))
+        events.append(judge("chunked/reconstruction-with-minimal-buffer", err2, tol, "C17/chunked/minimal-buffer", mol=case["mol"], nao=nao, nvec=int(L2.shape[0]),
+                            nvec_default_buffer=int(L.shape[0]), cmax=cmin, exact_fit=bool(cmin * nao == int(L.shape[0]) + 1), thr=case["thr"]))
+    return {"events": events, "nontrivial": True, "sample": {"mol": case["mol"], "nao": nao, "vectors": int(L.shape[0]), "max_error": err},
             "counters": {"chunked": 1}}
 
 
